@@ -1063,7 +1063,7 @@ impl<'t, 'b> G<'t, 'b> {
                     let arm_id = self.id();
                     let mut conds = vec![];
                     if !is_else {
-                        let nc = 1 + self.t.choose(2);
+                        let nc = 1 + self.t.weighted(&[5, 4, 2]);
                         for _ in 0..nc {
                             conds.push(self.cond(depth));
                         }
@@ -1137,10 +1137,25 @@ impl<'t, 'b> G<'t, 'b> {
                 Cond::None(id, e)
             }
         } else {
-            if self.t.chance(1, 3) {
-                Cond::Bool(id, Expr::True)
-            } else {
-                Cond::Bool(id, self.expr(&Ty::Bool, true, depth + 1))
+            match self.t.weighted(&[6, 12, 3, 1]) {
+                0 => Cond::Bool(id, if self.t.chance(3, 4) { Expr::True } else { Expr::False }),
+                1 => Cond::Bool(id, self.expr(&Ty::Bool, true, depth + 1)),
+                2 => {
+                    // a clause with a side effect: every clause of a list is evaluated, also
+                    // after a false one, so the node exists whichever arm is taken
+                    self.features.insert("cond-node-call");
+                    let probe = Expr::Call { func: "is-null".into(), args: vec![Expr::Call { func: "node".into(), args: vec![] }] };
+                    Cond::Bool(id, if self.t.chance(1, 2) { Expr::Call { func: "not".into(), args: vec![probe] } } else { probe })
+                }
+                _ => {
+                    // a bare clause that is not a boolean: the run fails when it is evaluated
+                    if self.risky() || self.cfg.risk >= 4 && self.t.chance(1, 4) {
+                        self.features.insert("cond-not-boolean");
+                        Cond::Bool(id, Expr::Int(self.t.choose(3) as u32, 0))
+                    } else {
+                        Cond::Bool(id, Expr::True)
+                    }
+                }
             }
         }
     }
@@ -1368,11 +1383,26 @@ impl<'t, 'b> G<'t, 'b> {
             "duplicate-scoped" => match self.syn_expr(false) {
                 Some((scope, _)) => {
                     let n = self.fresh_name("dup");
-                    let a = Stmt::Let { id: self.id(), var: VarRef::Scoped { id: self.id(), scope: scope.clone(), name: n.clone() }, value: Expr::Int(1, 0) };
-                    let scope2 = self.reid(scope.clone());
-                    let b = Stmt::Let { id: self.id(), var: VarRef::Scoped { id: self.id(), scope: scope2, name: n }, value: Expr::Int(1, 0) };
+                    // either definition may name the node directly or through a local holding it
+                    let mut body = vec![];
+                    let mut scopes = vec![];
+                    for _ in 0..2 {
+                        let sc = self.reid(scope.clone());
+                        if self.t.chance(1, 3) {
+                            let al = self.fresh_name("al");
+                            body.push(Stmt::Let { id: self.id(), var: VarRef::Plain { id: self.id(), name: al.clone() }, value: sc });
+                            scopes.push(Expr::Var { id: self.id(), name: al });
+                            self.features.insert("duplicate-through-local");
+                        } else {
+                            scopes.push(sc);
+                        }
+                    }
+                    let scope2 = scopes.pop().unwrap();
+                    let scope1 = scopes.pop().unwrap();
+                    let a = Stmt::Let { id: self.id(), var: VarRef::Scoped { id: self.id(), scope: scope1, name: n.clone() }, value: Expr::Int(1, 0) };
+                    let b = Stmt::Let { id: self.id(), var: VarRef::Scoped { id: self.id(), scope: scope2, name: n }, value: Expr::Int(self.t.choose(2) as u32 + 1, 0) };
                     self.fault_pair = Some((a.id(), b.id()));
-                    let mut body = vec![a];
+                    body.push(a);
                     if self.t.chance(1, 2) {
                         // an unrelated definition on the same node in between
                         let scope3 = self.reid(scope);
